@@ -159,6 +159,39 @@ def _subclassed(v, enums=False):
     return v
 
 
+def _with_shared(v, depth=0):
+    """the same kind of value, in which sub-objects are reachable TWICE (shared, not cyclic): every
+    object (down to the third level: the tree copy doubles per level) gains a member that IS one of its
+    container members, every list ends with its first container item once more (the same Python object)"""
+    if depth > 3:
+        return v
+    if isinstance(v, dict):
+        out = {k: _with_shared(x, depth + 1) for k, x in v.items()}
+        for k, x in list(out.items()):
+            if isinstance(x, (dict, list)):
+                out["verif_same_object_again"] = x
+                break
+        return out
+    if isinstance(v, list):
+        out = [_with_shared(x, depth + 1) for x in v]
+        for x in out:
+            if isinstance(x, (dict, list)):
+                out.append(x)
+                break
+        return out
+    return v
+
+
+def _tree(v):
+    """a tree copy: every sub-object exactly once"""
+    return json.loads(json.dumps(v))
+
+
+def _dumps3(o):
+    return {"wire": _try(lambda: o.model_dump(by_alias=True, exclude_none=True)), "plain": _try(lambda: o.model_dump()),
+            "json": _try(lambda: json.loads(o.model_dump_json(by_alias=True, exclude_none=True)))}
+
+
 def observe_instance(o, variants=False):
     out = {"ok": True, "type": type(o).__name__}
     try:
@@ -219,6 +252,17 @@ def op_validate(case):
         _scribble_instance(o2, seen)
         o4 = cls.model_validate(copy.deepcopy(case["wire"]))
         out["fresh_after_instances_edited"] = canon(o4.model_dump(by_alias=True, exclude_none=True))
+        # SHARED SUB-OBJECTS: an object whose members share sub-objects dumps like its tree copy
+        shared = _with_shared(copy.deepcopy(case["wire"]))
+        try:
+            out["shared_subobjects"] = _dumps3(cls.model_validate(shared))
+            out["tree_of_the_same"] = _dumps3(cls.model_validate(_tree(shared)))
+        except Exception as ex:  # noqa
+            out["shared_subobjects"] = {"$raised": type(ex).__name__}
+            try:
+                out["tree_of_the_same"] = _dumps3(cls.model_validate(_tree(shared)))
+            except Exception as ex2:  # noqa
+                out["tree_of_the_same"] = {"$raised": type(ex2).__name__}
         # SUBCLASSES: the same object with every str / int value given as an instance of a str / int
         # subclass (marker types), and as StrEnum / IntEnum members: same typed view
         for nm, en in (("value_subclasses", False), ("enum_members", True)):
@@ -460,10 +504,19 @@ def _ctor(module, qual):
     return _CTORS.get((module, qual))
 
 
+_SHARE = {"on": False, "memo": {}}
+
+
 def _instantiate(v):
-    """argument tree -> Python values: {"$model": id, "wire": {...}} becomes an instance"""
+    """argument tree -> Python values: {"$model": id, "wire": {...}} becomes an instance; with sharing on,
+    equal markers / equal containers become ONE object referenced from every place"""
     if isinstance(v, dict):
         if "$model" in v:
+            if _SHARE["on"]:
+                key = json.dumps(v, sort_keys=True)
+                if key not in _SHARE["memo"]:
+                    _SHARE["memo"][key] = INDEX[v["$model"]].model_validate(copy.deepcopy(v["wire"]))
+                return _SHARE["memo"][key]
             return INDEX[v["$model"]].model_validate(copy.deepcopy(v["wire"]))
         if "$tuple" in v:
             return tuple(_instantiate(x) for x in v["$tuple"])
@@ -486,7 +539,9 @@ def op_construct(case):
     orig = uuid.uuid4
     uuid.uuid4 = lambda: uuid.UUID(int=7)
     try:
+        _SHARE["on"], _SHARE["memo"] = bool(case.get("share")), {}
         kwargs = _instantiate(case["kwargs"])
+        _SHARE["on"] = False
         try:
             r = fn(**kwargs)
         except Exception as ex:  # noqa
@@ -890,6 +945,44 @@ def op_setup(case):
     return {"ok": False, "exc": "no-such-setup"}
 
 
+def _dump_mode(o, mode):
+    from chuk_mcp.protocol.types import tools as T
+
+    if mode == "plain":
+        return o.model_dump()
+    if mode == "exclude_none":
+        return o.model_dump(exclude_none=True)
+    if mode == "names_json":
+        return json.loads(o.model_dump_json(exclude_none=True))
+    if mode == "wire":
+        return o.model_dump(by_alias=True, exclude_none=True)
+    if mode == "wire_all":
+        return o.model_dump(by_alias=True)
+    if mode == "wire_json":
+        return json.loads(o.model_dump_json(by_alias=True, exclude_none=True))
+    if mode == "mcp":
+        return o.model_dump_mcp(by_alias=True, exclude_none=True)
+    if mode == "site":
+        # the library's own serialisation site for this class, where there is one
+        if isinstance(o, T.ToolResult):
+            return T.tool_result_to_dict(o)
+        if type(o).__name__ == "ElicitationParams":
+            return helper_elicitation({"wire": o.model_dump(by_alias=True, exclude_none=True)})[1]
+        return o.model_dump(by_alias=True, exclude_none=True)
+    raise ValueError(mode)
+
+
+def op_history(case):
+    """one instance, dumped in several modes in the ORDER the case gives (the first dump of a class in a
+    process may leave something behind for the later ones)"""
+    cls = INDEX.get(case["cls"])
+    try:
+        o = cls.model_validate(copy.deepcopy(case["wire"]))
+    except Exception as ex:  # noqa
+        return {"ok": False, "exc": type(ex).__name__}
+    return {"ok": True, "dumps": [[m, _try(lambda m=m: _dump_mode(o, m))] for m in case["modes"]]}
+
+
 def op_step(case):
     """heterogeneous sequences: each step names its own operation"""
     if LAZY and "where" in case:
@@ -901,7 +994,7 @@ def op_info(_case):
     return {"backend": BACKEND, "classes": len(INDEX)}
 
 
-OPS = {"validate": op_validate, "parse": op_parse, "helper": op_helper, "construct": op_construct, "flow": op_flow, "deep": op_deep, "setup": op_setup, "step": op_step, "info": op_info}
+OPS = {"validate": op_validate, "parse": op_parse, "helper": op_helper, "construct": op_construct, "flow": op_flow, "deep": op_deep, "setup": op_setup, "step": op_step, "history": op_history, "info": op_info}
 
 
 def _debug_logging():
